@@ -1,4 +1,214 @@
-import TetlProofs.C09.Lemmas
+/-
+C09 — property theorems.  For every strict total comparator, every capacity and every sorted
+vector (no size bound):  each modelled member of static_set / flat_set returns `.ok` (no access
+outside the vector, no violated static_vector precondition, no exhausted loop bound: the C02 face)
+of exactly what the declarative `std::set` spec prescribes; sortedness (= strict ascent, hence
+uniqueness) and the capacity bound are invariants of every history; whole histories refine the spec.
+-/
+import TetlProofs.C09.Order
 namespace Tetl.C09.Props
-theorem tmp_placeholder : (1 : Nat) = 1 := rfl
+open Tetl Tetl.C09
+
+variable {α : Type} {lt : α → α → Bool}
+
+/-! ## lookups -/
+
+theorem lowerBound_eq (hst : StrictTotal lt) {l : List α} (hs : Sorted lt l) (k : α) :
+    lowerBound lt l k = .ok (Spec.lowerBound lt l k) := by
+  obtain ⟨A, B, rfl, hA, hB, hr⟩ := lowerBound_split hst hs k
+  rw [hr, spec_lowerBound hA hB]
+
+theorem upperBound_eq (hst : StrictTotal lt) {l : List α} (hs : Sorted lt l) (k : α) :
+    upperBound lt l k = .ok (Spec.upperBound lt l k) := by
+  obtain ⟨A, B, rfl, hA, hB, hr⟩ := upperBound_split hst hs k
+  rw [hr, spec_upperBound hA hB]
+
+theorem equalRange_eq (hst : StrictTotal lt) {l : List α} (hs : Sorted lt l) (k : α) :
+    equalRange lt l k = .ok (Spec.lowerBound lt l k, Spec.upperBound lt l k) := by
+  simp [equalRange, lowerBound_eq hst hs, upperBound_eq hst hs]
+
+example : Sorted (fun a b : Nat => decide (a < b)) [1, 3, 5] := by unfold Sorted; decide
+
+/-- what the `lower_bound` + equivalence test sees, in terms of the spec -/
+theorem probe (hst : StrictTotal lt) {l : List α} (hs : Sorted lt l) (k : α) :
+    ∃ A B, l = A ++ B ∧ lowerBound lt l k = .ok A.length ∧ Spec.lowerBound lt l k = A.length ∧
+      (∀ x ∈ A, lt x k = true) ∧ (∀ x ∈ A, lt k x = false) ∧ (∀ x ∈ B, lt x k = false) ∧
+      ((∃ B', B = k :: B' ∧ (∀ x ∈ B', lt k x = true) ∧
+          equivAt (fun x => lt k x) l A.length = .ok true ∧ Spec.contains lt l k = true) ∨
+       ((∀ x ∈ B, lt k x = true) ∧
+          equivAt (fun x => lt k x) l A.length = .ok false ∧ Spec.contains lt l k = false)) := by
+  obtain ⟨A, B, rfl, hA, hB, hr⟩ := lowerBound_split hst hs k
+  obtain ⟨hA', hcase⟩ := classify hst hs hA hB
+  refine ⟨A, B, rfl, hr, spec_lowerBound hA hB, hA, hA', hB, ?_⟩
+  rcases hcase with ⟨B', rfl, hB'⟩ | hB'
+  · left
+    refine ⟨B', rfl, hB', ?_, (spec_present hst hA hB').1⟩
+    simp [equivAt, rd_append_mid, hst.irrefl]
+  · right
+    refine ⟨hB', ?_, (spec_absent hA hA' hB hB').1⟩
+    cases B with
+    | nil => simp [equivAt]
+    | cons b B' => simp [equivAt, rd_append_mid, hB' b]
+
+/-- `find` through `lower_bound` (flat_set::find, static_set's transparent find) -/
+theorem findLB_eq (hst : StrictTotal lt) {l : List α} (hs : Sorted lt l) (k : α) :
+    findLB (fun x => lt x k) (fun x => lt k x) l = .ok (Spec.find lt l k) := by
+  obtain ⟨A, B, hl, hr, hsl, _, _, _, hcase⟩ := probe hst hs k
+  have hr' : boundLoop l (fun x => lt x k) 0 l.length = .ok A.length := hr
+  unfold findLB Spec.find
+  rcases hcase with ⟨B', _, _, he, hc⟩ | ⟨_, he, hc⟩
+  · simp [hr', he, hc, hsl]
+  · simp [hr', he, hc]
+
+/-- static_set::find(key): the linear `etl::find` gives the same answer on a sorted set -/
+theorem ssFind_eq [DecidableEq α] (hst : StrictTotal lt) {l : List α} (hs : Sorted lt l) (k : α) :
+    ssFind l k = .ok (Spec.find lt l k) := by
+  obtain ⟨A, B, hl, _, hsl, hA, _, _, hcase⟩ := probe hst hs k
+  obtain ⟨W, D, hWD, hW, hD, hres⟩ := findIfLoop_split (fun x => decide (x = k)) l []
+  simp only [List.nil_append, List.length_nil, Nat.zero_add] at hres
+  unfold ssFind Spec.find
+  rw [hres]
+  have hkA : k ∉ A := fun h => by have := hA k h; rw [hst.irrefl] at this; cases this
+  have hkW : k ∉ W := fun h => by have := hW k h; simp at this
+  have hDk : ∀ d D', D = d :: D' → d = k := fun d D' h => by simpa using hD d D' h
+  rcases hcase with ⟨B', hB, hB', _, hc⟩ | ⟨hB', _, hc⟩
+  · rw [hc, hsl]; simp only [if_true]
+    subst hB
+    have heq : W ++ D = A ++ k :: B' := by rw [← hWD, hl]
+    rcases List.append_eq_append_iff.mp heq with ⟨a', ha, hd⟩ | ⟨c', hc', hd⟩
+    · cases a' with
+      | nil => simp at ha; rw [ha]
+      | cons x a'' =>
+        exfalso
+        have : x = k := hDk x _ hd
+        apply hkA; rw [ha, this]; simp
+    · cases c' with
+      | nil => simp at hc'; rw [hc']
+      | cons y c'' =>
+        exfalso
+        have : k = y := by simp at hd; exact hd.1
+        apply hkW; rw [hc', ← this]; simp
+  · rw [hc]; simp only [Bool.false_eq_true, if_false]
+    have hkl : k ∉ l := by
+      rw [hl]; intro h
+      rcases List.mem_append.mp h with h | h
+      · exact hkA h
+      · have := hB' k h; rw [hst.irrefl] at this; cases this
+    cases D with
+    | nil => rw [hWD]; simp
+    | cons d D' =>
+      exfalso
+      have : d = k := hDk d D' rfl
+      apply hkl; rw [hWD, this]; simp
+
+/-! ## insert / emplace -/
+
+/-- invariant of one set: strictly ascending and within capacity -/
+def Inv1 (lt : α → α → Bool) (cap : Nat) (l : List α) : Prop := Sorted lt l ∧ l.length ≤ cap
+
+theorem spec_insert_inv (hst : StrictTotal lt) {cap : Nat} {l : List α} (h : Inv1 lt cap l) (k : α) :
+    Inv1 lt cap (Spec.insert lt cap l k).1 := by
+  obtain ⟨hs, hc⟩ := h
+  obtain ⟨A, B, hl, _, _, hA, hA', hB, hcase⟩ := probe hst hs k
+  unfold Spec.insert
+  rcases hcase with ⟨B', _, _, _, hct⟩ | ⟨hB', _, hct⟩
+  · simp [hct]; exact ⟨hs, hc⟩
+  · rw [hct]; simp only [Bool.false_eq_true, if_false]
+    by_cases hfull : l.length ≥ cap
+    · simp [hfull]; exact ⟨hs, hc⟩
+    · simp only [hfull, if_false]
+      subst hl
+      obtain ⟨_, f1, f2, _, _⟩ := spec_absent hA hA' hB hB'
+      rw [f1, f2]
+      exact ⟨sorted_insert hs hA hB', by simp at hfull ⊢; omega⟩
+
+/-- static_set::insert / emplace = spec insert, in particular `(position, inserted)` -/
+theorem ssInsert_eq (hst : StrictTotal lt) {cap : Nat} {l : List α} (h : Inv1 lt cap l) (k : α) :
+    ssInsert lt cap l k = .ok (Spec.insert lt cap l k) := by
+  obtain ⟨hs, hc⟩ := h
+  obtain ⟨A, B, hl, hr, hsl, hA, hA', hB, hcase⟩ := probe hst hs k
+  unfold ssInsert Spec.insert
+  rcases hcase with ⟨B', _, _, he, hct⟩ | ⟨hB', he, hct⟩
+  · simp [hr, he, hct, hsl]
+  · simp only [hr, he, hct, ok_bind, Bool.false_eq_true, if_false]
+    by_cases hfull : l.length = cap
+    · simp [hfull]
+    · have hlt : ¬ l.length ≥ cap := by omega
+      simp only [hfull, hlt, if_false]
+      subst hl
+      obtain ⟨_, f1, f2, _, _⟩ := spec_absent hA hA' hB hB'
+      rw [f1, f2, hsl]
+      have hlt' : A.length + B.length < cap := by simpa using hlt
+      have hpb : svPushBack cap (A ++ B) k = .ok (A ++ B ++ [k]) := by
+        simp [svPushBack]; omega
+      have hrot := rotate_spec (A.length + B.length + 2) A B [k] [] (by simp; omega)
+      have hrot' : rotate ((A ++ B ++ [k]).length + 1) (A ++ B ++ [k]) A.length
+          ((A ++ B ++ [k]).length - 1) (A ++ B ++ [k]).length = .ok (A ++ [k] ++ B, A.length + 1) := by
+        have e1 : (A ++ B ++ [k]).length - 1 = A.length + B.length := by simp
+        have e2 : (A ++ B ++ [k]).length = A.length + B.length + 1 := by simp; omega
+        rw [e1, e2]; simpa using hrot
+      simp only [hpb, ok_bind, hrot']
+      simp
+
+/-- flat_set::emplace over static_vector = spec insert -/
+theorem fsEmplace_eq (hst : StrictTotal lt) {cap : Nat} {l : List α} (h : Inv1 lt cap l) (k : α) :
+    fsEmplace lt cap l k = .ok (Spec.insert lt cap l k) := by
+  obtain ⟨hs, hc⟩ := h
+  obtain ⟨A, B, hl, hr, hsl, hA, hA', hB, hcase⟩ := probe hst hs k
+  unfold fsEmplace Spec.insert
+  rcases hcase with ⟨B', _, _, he, hct⟩ | ⟨hB', he, hct⟩
+  · simp [hr, he, hct, hsl]
+  · simp only [hr, he, hct, ok_bind, Bool.false_eq_true, if_false, Bool.not_false, if_true]
+    by_cases hfull : l.length = cap
+    · simp [hfull]
+    · have hlt : ¬ l.length ≥ cap := by omega
+      simp only [hfull, hlt, if_false]
+      subst hl
+      obtain ⟨_, f1, f2, _, _⟩ := spec_absent hA hA' hB hB'
+      rw [f1, f2, hsl]
+      have hlt' : A.length + B.length < cap := by simpa using hlt
+      have hrot := rotate_spec (A.length + B.length + 2) A B [k] [] (by simp; omega)
+      have hrot' : rotate ((A ++ B).length + 2) (A ++ B ++ [k]) A.length (A ++ B).length
+          ((A ++ B).length + 1) = .ok (A ++ [k] ++ B, A.length + 1) := by
+        have e1 : (A ++ B).length = A.length + B.length := by simp
+        rw [e1]; simpa using hrot
+      have hem : svEmplace cap (A ++ B) A.length k = .ok (A ++ [k] ++ B, A.length) := by
+        unfold svEmplace
+        rw [if_neg hlt, if_neg (by simp), hrot']
+      simp [hem]
+
+/-- flat_set::emplace over the inplace-vector-like container = spec insert -/
+theorem fiEmplace_eq (hst : StrictTotal lt) {cap : Nat} {l : List α} (h : Inv1 lt cap l) (k : α) :
+    fiEmplace lt cap l k = .ok (Spec.insert lt cap l k) := by
+  obtain ⟨hs, hc⟩ := h
+  obtain ⟨A, B, hl, hr, hsl, hA, hA', hB, hcase⟩ := probe hst hs k
+  unfold fiEmplace Spec.insert
+  rcases hcase with ⟨B', _, _, he, hct⟩ | ⟨hB', he, hct⟩
+  · simp [hr, he, hct, hsl]
+  · simp only [hr, he, hct, ok_bind, Bool.false_eq_true, if_false, Bool.not_false, if_true]
+    by_cases hfull : l.length = cap
+    · simp [hfull]
+    · have hlt : ¬ l.length ≥ cap := by omega
+      simp only [hfull, hlt, if_false]
+      subst hl
+      obtain ⟨_, f1, f2, _, _⟩ := spec_absent hA hA' hB hB'
+      rw [f1, f2, hsl]
+      have hlt' : ¬ cap ≤ A.length + B.length := by simpa using hlt
+      have h2 : ¬ (A.length + B.length < A.length) := by omega
+      simp [miniEmplace, hlt', h2]
+
+/-- Inserting a new key into a full set reports failure and leaves the set unchanged
+    (all three set kinds, through the three refinement theorems above). -/
+theorem full_insert_new_key (hst : StrictTotal lt) {cap : Nat} {l : List α} (h : Inv1 lt cap l) (k : α)
+    (hfull : l.length = cap) (hnew : Spec.contains lt l k = false) :
+    ssInsert lt cap l k = .ok (l, .full) ∧ fsEmplace lt cap l k = .ok (l, .full) ∧
+      fiEmplace lt cap l k = .ok (l, .full) := by
+  have : Spec.insert lt cap l k = (l, .full) := by simp [Spec.insert, hnew, hfull]
+  rw [ssInsert_eq hst h, fsEmplace_eq hst h, fiEmplace_eq hst h, this]
+  exact ⟨rfl, rfl, rfl⟩
+
+example : Inv1 (fun a b : Nat => decide (a < b)) 3 [1, 3, 5] ∧
+    Spec.contains (fun a b : Nat => decide (a < b)) [1, 3, 5] 4 = false :=
+  ⟨⟨by unfold Sorted; decide, by decide⟩, by decide⟩
+
 end Tetl.C09.Props
